@@ -122,3 +122,25 @@ func VerifH_XHashIndex() {
 	}
 	symx.Reach("end")
 }
+
+// C17/H2c: one routing table shared by concurrent callers from its first use on: two goroutines look up
+// symbolic hashes (and a string key through the xxhash route) on a freshly built table - every
+// interleaving, race monitor - and each gets the shard a lone caller gets: the index is stable.
+func VerifH_ReMapConcurrent() {
+	p := symx.Param("shards", 3)
+	r := NewReMap(WithPrime(uint64(p)))
+	ref := NewReMap(WithPrime(uint64(p)))
+	h1, h2 := symx.Uint64("h1"), symx.Uint64("h2")
+	var i1, i2, s2 int
+	symx.Go("callerA", func() { i1 = r.SearchIndex(h1) })
+	symx.Go("callerB", func() {
+		i2 = r.SearchIndex(h2)
+		s2 = r.XHashIndex("k")
+	})
+	symx.WaitQuiescent()
+	symx.Assert(symx.OthersDone(), "both lookups return")
+	symx.Assert(i1 >= 0 && i1 < p && i2 >= 0 && i2 < p && s2 >= 0 && s2 < p, "index in [0, shards)")
+	symx.Assert(i1 == ref.SearchIndex(h1) && i2 == ref.SearchIndex(h2), "a concurrent first lookup gets the shard a lone caller gets")
+	symx.Assert(i1 == r.SearchIndex(h1) && i2 == r.SearchIndex(h2) && s2 == r.XHashIndex("k"), "and the same shard as every later lookup: the index is stable")
+	symx.Reach("end")
+}
